@@ -458,6 +458,68 @@ func (f *c12Fix) ops() []c12Op {
 			return resStr(buf, err)
 		}},
 		{"j2p.Do-truncated", func(d *c12Descs) (string, []byte) { return resStr(d.j2p.Do(ctx, d.p, f.pj[:len(f.pj)*2/3])) }},
+		{"proto.Value.MarshalTo", func(d *c12Descs) (string, []byte) {
+			return resStr(pg.NewRootValue(d.p, f.pb).MarshalTo(d.p, &pg.Options{}))
+		}},
+		{"proto.Value.Field+GetMany", func(d *c12Descs) (string, []byte) {
+			var sb strings.Builder
+			root := pg.NewRootValue(d.p, f.pb)
+			var many []pg.PathNode
+			for n := 1; n <= 24; n++ {
+				x := root.Field(dproto.FieldNumber(n))
+				if x.IsError() {
+					sb.WriteString("E;")
+					continue
+				}
+				many = append(many, pg.PathNode{Path: pg.NewPathFieldId(dproto.FieldNumber(n))})
+				sb.WriteString(h.Sha(x.Raw()) + ";")
+			}
+			if len(many) > 0 {
+				if err := root.GetMany(many, &pg.Options{}); err != nil {
+					sb.WriteString("GetMany-error;")
+				} else {
+					for _, pn := range many {
+						sb.WriteString(h.Sha(pn.Node.Raw()) + ";")
+					}
+				}
+			}
+			return "ok:" + h.Sha([]byte(sb.String())), nil
+		}},
+		{"proto.desc.lookups", func(d *c12Descs) (string, []byte) {
+			var sb strings.Builder
+			md := d.p.Message()
+			for n := 1; n <= 24; n++ {
+				if fd := md.ByNumber(dproto.FieldNumber(n)); fd != nil {
+					if md.ByName(fd.Name()) != fd || md.ByJSONName(fd.JSONName()) != fd {
+						sb.WriteString("BROKEN")
+					}
+					sb.WriteString(fd.Name())
+				}
+			}
+			if md.ByName("no-such-field") != nil || md.ByNumber(29999) != nil {
+				sb.WriteString("GHOST")
+			}
+			return "ok:" + h.Sha([]byte(sb.String())), nil
+		}},
+		{"thrift.Value.GetMany", func(d *c12Descs) (string, []byte) {
+			var sb strings.Builder
+			val := generic.NewValue(d.t, f.tb)
+			var many []generic.PathNode
+			for _, fd := range d.t.Struct().Fields() {
+				many = append(many, generic.PathNode{Path: generic.NewPathFieldId(fd.ID())})
+			}
+			if err := val.GetMany(many, gopts()); err != nil {
+				return "error:" + errCode(err), nil
+			}
+			for _, pn := range many {
+				if pn.Node.IsError() {
+					sb.WriteString("E;")
+				} else {
+					sb.WriteString(h.Sha(pn.Node.Raw()) + ";")
+				}
+			}
+			return "ok:" + h.Sha([]byte(sb.String())), nil
+		}},
 		{"proto.Value.Interface", func(d *c12Descs) (string, []byte) {
 			v, err := pg.NewRootValue(d.p, f.pb).Interface(&pg.Options{})
 			if err != nil {
